@@ -31,6 +31,11 @@ func init() {
 	cEntry("Range(-1,1)", 0, []any{int64(-1), int64(0)}, tC, func(b *B) ro.Observable[int64] { return ro.Range(-1, 1) }, "Range")
 	cEntry("RangeWithStep(0,1,0.5)", 0, []any{0.0, 0.5}, tC, func(b *B) ro.Observable[float64] { return ro.RangeWithStep(0, 1, 0.5) }, "RangeWithStep")
 	cEntry("RangeWithStep(2,0,1)", 0, []any{2.0, 1.0}, tC, func(b *B) ro.Observable[float64] { return ro.RangeWithStep(2, 0, 1) }, "RangeWithStep")
+	// descending / ascending ranges whose span is no multiple of the step: the last partial step counts
+	cEntry("RangeWithStep(10,1,2)", 0, []any{10.0, 8.0, 6.0, 4.0, 2.0}, tC, func(b *B) ro.Observable[float64] { return ro.RangeWithStep(10, 1, 2) }, "RangeWithStep")
+	cEntry("RangeWithStep(0,-1,1.5)", 0, []any{0.0}, tC, func(b *B) ro.Observable[float64] { return ro.RangeWithStep(0, -1, 1.5) }, "RangeWithStep")
+	cEntry("RangeWithStep(1,10,4)", 0, []any{1.0, 5.0, 9.0}, tC, func(b *B) ro.Observable[float64] { return ro.RangeWithStep(1, 10, 4) }, "RangeWithStep")
+	cEntry("RangeWithStep(-1,-2.5,0.5)", 0, []any{-1.0, -1.5, -2.0}, tC, func(b *B) ro.Observable[float64] { return ro.RangeWithStep(-1, -2.5, 0.5) }, "RangeWithStep")
 	cEntry("RangeWithStep(1,1,1)", 0, []any{}, tC, func(b *B) ro.Observable[float64] { return ro.RangeWithStep(1, 1, 1) }, "RangeWithStep")
 	cEntry("Repeat(7,3)", 0, []any{7, 7, 7}, tC, func(b *B) ro.Observable[int] { return ro.Repeat(7, 3) }, "Repeat")
 	cEntry("Repeat(7,0)", 0, []any{}, tC, func(b *B) ro.Observable[int] { return ro.Repeat(7, 0) }, "Repeat")
@@ -58,6 +63,9 @@ func init() {
 	}, "Interval")
 	cEntry("IntervalWithInitial(1ms,1ms)+Take(3)", TimeDriven|Async|MultiFeed, []any{int64(0), int64(1), int64(2)}, tC, func(b *B) ro.Observable[int64] {
 		return ro.Take[int64](3)(ro.IntervalWithInitial(time.Millisecond, time.Millisecond))
+	}, "IntervalWithInitial")
+	cEntry("IntervalWithInitial(0,1ms)+Take(3)", TimeDriven|Async|MultiFeed, []any{int64(0), int64(1), int64(2)}, tC, func(b *B) ro.Observable[int64] {
+		return ro.Take[int64](3)(ro.IntervalWithInitial(0, time.Millisecond))
 	}, "IntervalWithInitial")
 	cEntry("RangeWithInterval(0,3,1ms)", TimeDriven|Async|MultiFeed, []any{int64(0), int64(1), int64(2)}, tC, func(b *B) ro.Observable[int64] {
 		return ro.RangeWithInterval(0, 3, time.Millisecond)
